@@ -1,0 +1,6 @@
+//go:build !verif
+
+package fox
+
+// verifPoint is a verification hook; it compiles to nothing unless the verif build tag is set.
+func verifPoint(string) {}
